@@ -56,6 +56,18 @@ fn cardinal_or_ordinal(n: u64, c: &mut dyn Chooser, ord: bool) -> Vec<String> {
         if tgt.is_empty() { let l = out.pop().unwrap(); out.push(format!("{}ste", l)); }
         else { let l = tgt.pop().unwrap(); tgt.push(ord_word(&l)); }
     }
+    // optional connector "en" after duizend / honderd before a last part below 13 ("duizend en een",
+    // "honderdeneerste"): the part after it must be a single small number word
+    let small_tail = u.len() == 1 || (u.len() == 2 && u[0] == "honderd" && false);
+    if style == 0 && !t.is_empty() && small_tail && c.pick(6) == 5 {
+        out.extend(join(t, 0)); out.push(s("en")); out.extend(join(u, 0));
+        return out;
+    }
+    if (style == 0 || style == 1) && u.len() == 2 && u[0] == "honderd" && t.is_empty() && c.pick(6) == 5 {
+        // glued "honderdeneen" / "honderdeneerste"
+        out.push(format!("honderden{}", u[1]));
+        return out;
+    }
     match style {
         0 => { out.extend(join(t, 0)); out.extend(join(u, 0)); }
         1 => { t.extend(u); out.extend(join(t, 0)); }
